@@ -296,11 +296,12 @@ func (t *WSTransport) dial(ctx context.Context, key uint64, opts common.Options)
 		abstractlogger.String("negotiated_subprotocol", wsConn.Subprotocol()),
 	)
 
-	conn := newWSConnection(wsConn, proto, wsConnectionOptions{
+	var conn *wsConnection
+	conn = newWSConnection(wsConn, proto, wsConnectionOptions{
 		logger:       t.opts.Logger,
 		writeTimeout: t.opts.WriteTimeout,
 		idleTimeout:  t.opts.IdleTimeout,
-		onEmpty:      func() { t.removeConn(key) },
+		onEmpty:      func() { t.removeConn(key, conn) },
 	})
 
 	go conn.readLoop()
@@ -331,10 +332,13 @@ func (t *WSTransport) negotiateSubprotocol(requested common.WSSubprotocol, accep
 	}
 }
 
-func (t *WSTransport) removeConn(key uint64) {
+func (t *WSTransport) removeConn(key uint64, conn *wsConnection) {
 	t.mu.Lock()
 	defer t.mu.Unlock()
-	delete(t.conns, key)
+	// Remove by identity: a successor connection may already be stored under key.
+	if t.conns[key] == conn {
+		delete(t.conns, key)
+	}
 }
 
 // connKey computes a hash key for connection pooling.
